@@ -581,7 +581,8 @@ pub fn gen_history(rng: &mut Rng, o: &HistOpts) -> Scenario {
             let clo: Vec<Tid> = model::closure(&sc, &req).into_iter().filter(|t| model::kind_of(&sc, t) == Some(Kind::Build)).collect();
             if !clo.is_empty() {
                 let t = rng.pick(&clo);
-                inv.plan.faults.push(Fault { site: format!("proc.exit:{}", sc.sim_id(t.0, &t.1)), occurrence: 1, kind: "exit=1".into() });
+                let kind = if rng.chance(40) { "sig=9" } else { "exit=1" };
+                inv.plan.faults.push(Fault { site: format!("proc.exit:{}", sc.sim_id(t.0, &t.1)), occurrence: 1, kind: kind.into() });
             }
         }
         if rng.chance(o.io_fault_pct) {
